@@ -64,7 +64,11 @@ type TypeRef struct {
 	Name     string // qname as written
 	Patterns []string
 	Range    string
-	Scope    *Scope // scope of the type statement
+	Enums    []string   // Name == "enumeration"
+	Path     string     // Name == "leafref"
+	Members  []*TypeRef // Name == "union"
+	Frac     int        // Name == "decimal64"
+	Scope    *Scope     // scope of the type statement
 }
 
 type Node struct {
@@ -173,6 +177,30 @@ func Print(m *Mod) string {
 }
 
 func (p *printer) typ(t *TypeRef) {
+	switch t.Name {
+	case "enumeration":
+		p.line("type enumeration {")
+		for _, e := range t.Enums {
+			p.line("  enum %s;", e)
+		}
+		p.line("}")
+		return
+	case "leafref":
+		p.line("type leafref { path %q; }", t.Path)
+		return
+	case "decimal64":
+		p.line("type decimal64 { fraction-digits %d; }", t.Frac)
+		return
+	case "union":
+		p.line("type union {")
+		p.ind++
+		for _, m := range t.Members {
+			p.typ(m)
+		}
+		p.ind--
+		p.line("}")
+		return
+	}
 	if len(t.Patterns) == 0 && t.Range == "" {
 		p.line("type %s;", t.Name)
 		return
@@ -271,6 +299,10 @@ type TSum struct {
 	Default  string
 	HasDef   bool
 	Patterns []string
+	Enums    []string // members of the enumeration the chain ends in
+	Path     string   // leafref path
+	Members  []string // base kinds of the union members, in written order
+	Frac     int      // fraction-digits
 	Err      string
 }
 
@@ -460,7 +492,7 @@ func (r *Resolver) instantiate(s *Scope, under *X, placing *Mod, depth int) {
 	}
 }
 
-var builtins = map[string]bool{"string": true, "int8": true, "uint32": true, "boolean": true, "empty": true, "int16": true, "uint8": true, "binary": true}
+var builtins = map[string]bool{"string": true, "int8": true, "uint32": true, "boolean": true, "empty": true, "int16": true, "uint8": true, "binary": true, "enumeration": true, "leafref": true, "union": true, "decimal64": true}
 
 func (r *Resolver) findTypedef(s *Scope, q string) *Typedef {
 	p, name := splitQ(q)
@@ -508,7 +540,14 @@ func (r *Resolver) ResolveType(t *TypeRef, depth int) *TSum {
 	}
 	var base *TSum
 	if builtins[t.Name] {
-		base = &TSum{Kind: t.Name}
+		base = &TSum{Kind: t.Name, Enums: append([]string{}, t.Enums...), Path: t.Path, Frac: t.Frac}
+		for _, m := range t.Members {
+			ms := r.ResolveType(m, depth+1)
+			if ms.Err != "" {
+				return ms
+			}
+			base.Members = append(base.Members, ms.Kind)
+		}
 	} else {
 		td := r.findTypedef(t.Scope, t.Name)
 		if td == nil {
@@ -632,6 +671,38 @@ func (r *Resolver) Resolve() {
 		subsTransitive(m, map[*Mod]bool{}, &subs)
 		for _, s := range subs {
 			r.instantiate(s.Body, root, m, 0)
+		}
+	}
+	// every typedef is resolved, used or not (goyang resolves the whole dictionary)
+	var walkT func(sc *Scope)
+	walkT = func(sc *Scope) {
+		if sc == nil {
+			return
+		}
+		for _, td := range sc.Typedefs {
+			if k := r.ResolveType(td.Type, 0); k.Err != "" {
+				r.errf("type", "typedef %s: %s", td.Name, k.Err)
+			}
+		}
+		for _, gr := range sc.Groupings {
+			walkT(gr.Body)
+		}
+		for _, it := range sc.Items {
+			if it.Node != nil {
+				walkT(it.Node.Body)
+				if it.Node.Input != nil {
+					walkT(it.Node.Input.Body)
+				}
+				if it.Node.Output != nil {
+					walkT(it.Node.Output.Body)
+				}
+			}
+		}
+	}
+	for _, m := range r.Mods {
+		walkT(m.Body)
+		for _, a := range m.Augments {
+			walkT(a.Body)
 		}
 	}
 	// every grouping is also expanded on its own (goyang does so to collect errors)
